@@ -200,17 +200,37 @@ def admissible(reg, arr_dims, req, ds, layout, ns, prefer_wrong=False):
 
 
 def prove_any(name, alternatives, detail=None):
-    """obligation: at least one alternative is valid on this path.  alternative = (assumptions, goals)"""
+    """obligation: at least one alternative is valid on this path.  alternative = (assumptions, goals).
+    First a cheap pass over all alternatives (syntactic identity / 2 s solver budget), then the full
+    budget only on alternatives the cheap pass left undecided."""
     c = symx.ctx()
-    any_unknown = False
     first_model = None
+    undecided = []
     for assumptions, goals in alternatives:
-        ok = True
+        verdict = "proved"
         for goal in goals:
             if isinstance(goal, bool):
                 if not goal:
-                    ok = False
+                    verdict = "failed"
                     break
+                continue
+            st, model = c.quick_valid(goal, assumptions)
+            if st == "failed":
+                verdict = "failed"
+                if first_model is None:
+                    first_model = model
+                break
+            if st == "unknown":
+                verdict = "unknown"
+        if verdict == "proved":
+            return c.oblige(name, True, detail)
+        if verdict == "unknown":
+            undecided.append((assumptions, goals))
+    any_unknown = False
+    for assumptions, goals in undecided:
+        ok = True
+        for goal in goals:
+            if isinstance(goal, bool):
                 continue
             st, model = c.check_valid(goal, assumptions)
             if st != "proved":
